@@ -856,7 +856,7 @@ pub fn run(args: &Args) -> i32 {
         (50, 900),
     )
     .with_min_nontrivial(50);
-    let max_cases = args.tier.pick(4_000, 300_000);
+    let max_cases = args.tier.pick(6_000, 300_000);
     if let Some(c) = args.extra.get("case").and_then(|c| c.parse::<u64>().ok()) {
         let rt = tokio::runtime::Builder::new_current_thread().enable_all().build().unwrap();
         rt.block_on(one_case(&report, seed, c, Corrupt::None));
